@@ -30,7 +30,8 @@ RULE = ('seq: every sequence of 1..N lines over 10 line classes {B signed-messag
 ANCHORS = ['manifest:ManifestFile.load', 'openpgp:SystemGPGEnvironment.verify_file',
            'openpgp:SystemGPGEnvironment._spawn_gpg']
 REQUIRED = ['manifest:ManifestFile.load', 'seq:accepted-signed', 'seq:rejected',
-            'mock_verify_calls', 'gpg:accepted', 'gpg:rejected']
+            'mock_verify_calls', 'gpg:accepted', 'gpg:rejected',
+            'gpg:rejected-on-reused-object', 'gpg:resign_cases']
 ASSUMPTIONS = ['(a) uses a mock OpenPGP environment: the framing logic is what is '
                'decided there; (b) is relative to the installed GnuPG',
                'armor-like lines inside the armor-header section, and an END line '
@@ -95,6 +96,8 @@ def units(tier, seed):
         u.append({'k': 'gpg', 'i': i, 'n': 100})
     for i in range(6 if tier == 'quick' else 100):
         u.append({'k': 'reload', 'i': i})
+    for i in range(6 if tier == 'quick' else 60):
+        u.append({'k': 'resign', 'i': i})
     return u
 
 
@@ -334,6 +337,9 @@ def run_unit(u, ctx):
     elif u['k'] == 'reload':
         from vf.checks import c04gpg
         c04gpg.run_reload(u, ctx)
+    elif u['k'] == 'resign':
+        from vf.checks import c04gpg
+        c04gpg.run_resign(u, ctx)
     else:
         run_gpg(u, ctx)
 
@@ -342,6 +348,9 @@ def replay(case, ctx):
     if case.get('kind') == 'reload':
         from vf.checks import c04gpg
         c04gpg.run_reload({'i': 0}, ctx)
+    elif case.get('kind') == 'resign':
+        from vf.checks import c04gpg
+        c04gpg.run_resign({'i': case['i']}, ctx)
     elif case.get('kind') == 'gpgtext':
         from vf.checks import c04gpg
         c04gpg.replay(case, ctx)
